@@ -172,6 +172,15 @@ def run(ctx):
             a[which] = [(4.0, 1.0), 2.0, 1024][which] if which else None
             if which:
                 bads.append((a, 'scalar-for-list@%d' % which))
+        # the same with the channel selection left at its default (all channels)
+        for which in range(3):
+            for badlen in (D - 1, D + 1):
+                a = [[(0.0, 0.0)] * D, [1.0] * D, [1024] * D]
+                a[which] = (a[which] + a[which])[:badlen]
+                o = core.attempt(to_rfi, s, None, a[0], a[1], a[2])
+                ctx.counters['chk:refusal'] += 1
+                if ctx.check(o.raised, 'refusal:inconsistent-lengths-accepted', cid, what='len%+d@%d (channels omitted)' % (badlen - D, which), args=a):
+                    ctx.refusal('len-default-channels:' + type(o.exc).__name__)
         for a, what in bads:
             o = core.attempt(to_rfi, s, chans, a[0], a[1], a[2])
             ctx.counters['chk:refusal'] += 1
